@@ -662,10 +662,12 @@ func (m *Manager) publishBlockInternal(ctx context.Context) error {
 				return nil
 			}
 		} else {
-			if batchData.Before(lastHeaderTime) {
-				return fmt.Errorf("timestamp is not monotonically increasing: %s < %s", batchData.Time, m.getLastBlockTime())
-			}
 			m.logger.Info("creating and publishing block", "height", newHeight, "num_tx", len(batchData.Transactions))
+		}
+
+		// applies to empty batches as well: a block that is saved must be acceptable to Validate
+		if batchData.Before(lastHeaderTime) {
+			return fmt.Errorf("timestamp is not monotonically increasing: %s < %s", batchData.Time, m.getLastBlockTime())
 		}
 
 		header, data, err = m.createBlock(ctx, newHeight, lastSignature, lastHeaderHash, batchData)
